@@ -321,7 +321,9 @@ def enc_tree(t):
 
 
 def enc_path(p):
-    return clist(cnat(i) for i in p)
+    # None: the parsed object refers to a node that is not in the tree it should belong to (e.g. a node of the OTHER tree);
+    # a path no tree has, so that the comparison with the model fails and the oracle judges the case
+    return clist(cnat(i) for i in (p if p is not None else [999, 999]))
 
 
 def enc_tmap(m):
